@@ -19,6 +19,10 @@ var kwName = map[int]string{
 	sqlparser.IS: "K_is", sqlparser.NULL: "K_null", sqlparser.TRUE: "K_true", sqlparser.FALSE: "K_false",
 	sqlparser.INTERVAL: "K_interval", sqlparser.DESCRIPTOR: "K_descriptor", sqlparser.TABLE: "K_table",
 	sqlparser.ASC: "K_asc", sqlparser.DESC: "K_desc", sqlparser.CONVERT: "K_convert",
+	sqlparser.WITH: "K_with", sqlparser.HAVING: "K_having", sqlparser.EXISTS: "K_exists", sqlparser.BETWEEN: "K_between", sqlparser.CASE: "K_case",
+	sqlparser.WHEN: "K_when", sqlparser.THEN: "K_then", sqlparser.ELSE: "K_else", sqlparser.INNER: "K_inner", sqlparser.CROSS: "K_cross",
+	sqlparser.REGEXP: "K_regexp", '~': "P_tilde", sqlparser.LIKE_REGEXP_CASE_INSENSITIVE: "P_tildestar", sqlparser.NOT_LIKE_REGEXP: "P_ntilde",
+	sqlparser.NOT_LIKE_REGEXP_CASE_INSENSITIVE: "P_ntildestar",
 	'(': "P_lparen", ')': "P_rparen", ',': "P_comma", '.': "P_dot", '*': "P_star", '+': "P_plus", '-': "P_minus", '/': "P_slash",
 	'=': "P_eq", '<': "P_lt", '>': "P_gt", sqlparser.LE: "P_le", sqlparser.GE: "P_ge", sqlparser.NE: "P_ne",
 	sqlparser.NULL_SAFE_EQUAL: "P_nseq", sqlparser.RIGHTARROW: "P_rarrow", sqlparser.JSON_EXTRACT_OP: "P_arrow",
@@ -52,6 +56,14 @@ func coqToken(typ int, val []byte) string {
 		return "TInt " + coqBytes(val)
 	case sqlparser.FLOAT:
 		return "TFloat " + coqBytes(val)
+	case sqlparser.HEX:
+		return "THex " + coqBytes(val)
+	case sqlparser.BIT_LITERAL:
+		return "TBit " + coqBytes(val)
+	case sqlparser.HEXNUM:
+		return "THexNum " + coqBytes(val)
+	case sqlparser.VALUE_ARG:
+		return "TArg " + coqBytes(val)
 	}
 	return fmt.Sprintf("TOther %d", typ)
 }
